@@ -25,6 +25,7 @@ from pane.annotations import Condition, Tagged
 import pane.annotations as pa
 
 INT_MAX = 2 ** 31 - 1
+BIG = 10 ** 400
 Q_MAX = 2 ** 20
 
 
@@ -213,6 +214,8 @@ def abstract(x: t.Any) -> dict:
     if ty is bool:
         return {'k': 'bool', 'b': 'T' if x else 'F'}
     if ty is int:
+        if x == BIG:
+            return {'k': 'bigint', 'sign': 1}
         if abs(x) > INT_MAX:
             raise OutOfVocab('int too wide')
         return {'k': 'int', 'n': x}
@@ -302,6 +305,8 @@ def concretise(a: dict) -> t.Any:
         return a['b'] == 'T'
     if k == 'int':
         return a['n']
+    if k == 'bigint':
+        return BIG
     if k == 'float':
         return float_of_num(a)
     if k == 'complex':
